@@ -400,6 +400,34 @@ def explore_backbone(ctx: common.Ctx, kind: str, n_jobs: int, opts: dict, procs:
     return res
 
 
+def circ_dup_stream(ctx: common.Ctx, n_jobs: int, procs: int = 14):
+    """the same circRNA record in two GVF files (cv_backbone.circ_dup_worker): entry strings stay
+    unique, the peptide set is that of the file given once"""
+    from . import cv_backbone
+    jobs = [(ctx.rng('circdup', i).randrange(1 << 30), ctx.tier, {}) for i in range(n_jobs)]
+    with mp.get_context('fork').Pool(min(procs, max(1, n_jobs))) as pool:
+        res = pool.map(cv_backbone.circ_dup_worker, jobs)
+    for r in res:
+        if 'dups' not in r:
+            continue
+        ctx.evaluated('circ-record-in-two-files', str(r['seed']), bool(r['twice']), r['desc'])
+        if r['status'] != ('ok', 'ok'):
+            if r['status'][0] == 'ok':
+                ctx.add_violation(f'callVariant fails ({r["status"][1]}) when the circRNA GVF is supplied twice',
+                                  dict(r['desc'], kind='circ-twice'))
+            continue
+        if r['dups']:
+            ctx.add_violation(f'header entry string(s) {r["dups"][:3]} occur more than once in the FASTA when '
+                              'the same circRNA record is supplied in two GVF files',
+                              dict(r['desc'], kind='circ-twice', entries=r['dups']))
+        if r['once'] != r['twice']:
+            a, b = set(r['once']), set(r['twice'])
+            ctx.add_violation('supplying the same circRNA record in a second GVF file changes the peptide set: '
+                              f'lost {sorted(a - b)[:3]} gained {sorted(b - a)[:3]}',
+                              dict(r['desc'], kind='circ-twice'))
+    shutil.rmtree(gen_ref.WORK, ignore_errors=True)
+
+
 def collapse_stream(ctx: common.Ctx, n_jobs: int, side: str, procs: int = 14):
     """binding node-collapsing parameters on indel-rich clusters (cv_explore.collapse_worker);
     side 'lost' (C01) / 'gained' (C02) / 'both'"""
